@@ -176,15 +176,16 @@ func decodeVirtualService(vs *unstructured.Unstructured, stableSvc, canarySvc st
 
 type trafficOracle struct {
 	baseOracle
-	sc               *Scenario
-	stableSvc        string
-	canarySvc        string
-	orig             map[ObjKey]client.Object // user-owned network objects before the rollout (updated by user edits)
-	claimed          bool                     // a BatchRelease has claimed the workload (control annotation) at some point
-	canaryDeletedAt  time.Time
-	canaryDeletedGen int
-	fullStep         bool // a step covering every replica was executed (stable pods legitimately all replaced)
-	resetBR          bool // a continuous-release reset is in progress (gateway must be restored before capacity is released)
+	sc                *Scenario
+	stableSvc         string
+	canarySvc         string
+	orig              map[ObjKey]client.Object // user-owned network objects before the rollout (updated by user edits)
+	claimed           bool                     // a BatchRelease has claimed the workload (control annotation) at some point
+	canaryDeletedAt   time.Time
+	canaryDeletedGen  int
+	pinnedThroughFull bool // the stable Service was never un-pinned before that step started
+	fullStep          bool // a step covering every replica was executed (stable pods legitimately all replaced)
+	resetBR           bool // a continuous-release reset is in progress (gateway must be restored before capacity is released)
 }
 
 func (o *trafficOracle) Name() string { return "traffic" }
@@ -416,6 +417,11 @@ func (o *trafficOracle) checkLeaveTrafficRouting(s *Sim, w *Write) {
 func (o *trafficOracle) checkFirstStepPin(s *Sim, w *Write) {
 	eAfter, n, ok := s.exposure(w.New)
 	if ok && n > 0 && eAfter >= n {
+		if !o.fullStep {
+			// was the stable Service still pinned when the step that replaces every pod was handed to the workload?
+			ss, _ := s.Store.Peek(ObjKey{GK: gkService, NS: o.sc.NS, Name: o.stableSvc}).(*corev1.Service)
+			o.pinnedThroughFull = ss != nil && ss.Spec.Selector[revKey] != ""
+		}
 		o.fullStep = true
 	}
 	eBefore, _, _ := s.exposure(w.Old)
@@ -496,6 +502,9 @@ func (o *trafficOracle) checkVoid(s *Sim, w *Write) {
 			}
 		}
 	}
+	if ss != nil && ss.Spec.Selector[revKey] == "" {
+		o.pinnedThroughFull = false
+	}
 	if ss != nil && ss.Spec.Selector[revKey] != "" && cur.Share < 100 && s.Cfg.PodKill == 0 && !strings.Contains(s.firedEvents(), "scale") {
 		s.probe("c04.pinned-snapshots")
 		r := ss.Spec.Selector[revKey]
@@ -514,7 +523,9 @@ func (o *trafficOracle) checkVoid(s *Sim, w *Write) {
 			}
 		}
 		if total > 0 && have == 0 {
-			if o.fullStep {
+			if o.fullStep && o.pinnedThroughFull {
+				fam += "/pinned-through-full-step"
+			} else if o.fullStep {
 				fam += "/after-full-step"
 			}
 			s.Violate("C04", "V2-stable-pods", "V2/"+fam, w.Seq, "after %s %s by %s the stable Service is pinned to revision %s and still receives %d%% of the traffic, but no pod of that revision exists (%d pods of other revisions)", w.Verb, w.Key, w.Actor, r, 100-cur.Share, total)
